@@ -183,6 +183,26 @@ class Gen:
             c, tc = self.expr(ctx, depth - 1)
             self.features.add('cond')
             return '(%s ? %s : %s)' % (c, a, b), ta
+        if k < 0.905:
+            # floating point in shapes whose results are exact or at least deterministic IEEE operations and
+            # whose conversions back to integers are in range
+            b, tb = self.expr(ctx, depth - 1)
+            self.features.add('floating')
+            f = r.randrange(7)
+            c = self.cast
+            if f == 0:
+                return '((long)(((double)%s) %s ((double)%s)))' % (c('int', a), r.choice('+-*'), c('short', b)), 'long'
+            if f == 1:
+                return '((long)(((float)%s) * ((float)%s)))' % (c('short', a), c('schar', b)), 'long'
+            if f == 2:
+                return '((int)(((double)%s) / ((double)(%s | 1))))' % (c('short', a), c('short', b)), 'int'
+            if f == 3:
+                return '(((double)%s) %s ((float)%s))' % (c('long', a), r.choice(['<', '<=', '==', '>']), c('short', b)), 'int'
+            if f == 4:
+                return '((long)(((long double)%s) * ((long double)%s)))' % (c('int', a), c('int', b)), 'long'
+            if f == 5:
+                return '((unsigned int)(((double)%s) * 0.5))' % c('uint', a), 'uint'
+            return '((unsigned long)((double)(%s >> 1)))' % c('ulong', a), 'ulong'
         if k < 0.93:
             b, tb = self.expr(ctx, depth - 1)
             self.features.add('bitop-any')
@@ -305,6 +325,20 @@ class Gen:
         k = r.random()
         if w:
             self.features.add('bitfield-write')
+        if k < (0.45 if w else 0.10):
+            # the VALUE of an assignment expression (6.5.16p3: the value of the left operand after the
+            # assignment, i.e. converted / truncated to a bit-field's width)
+            self.features.add('assignment-value')
+            form = r.random()
+            if form < 0.4:
+                lv2, t2, w2 = r.choice(ctx['writable'])
+                if lv2 != lv:
+                    return ['%s = (%s = %s);' % (lv2, lv, e)]
+            if form < 0.7:
+                return ['mix ((u64)(%s = %s));' % (lv, e)]
+            if form < 0.85:
+                return ['if ((%s = %s)) mix (1); else mix (2);' % (lv, e)]
+            return ['mix ((u64)(%s %s %s));' % (lv, r.choice(['^=', '|=', '&=']), e)]
         if k < 0.55:
             return ['%s = %s;' % (lv, e)]
         if k < 0.70:
@@ -321,9 +355,9 @@ class Gen:
             return ['%s %s %s;' % (lv, r.choice(['+=', '-=']), self.cast(r.choice(['schar', 'uchar', 'bool']), e))]
         if k < 0.93 and (t in UNS3 or RANK[t] <= 2) and not (w and (t == 'int' or 30 < w < 32)):
             self.features.add('incdec')
-            form = r.choice(['%s++;', '++%s;', '%s--;', '--%s;'])
+            form = r.choice(['%s++;', '++%s;', '%s--;', '--%s;', 'mix ((u64)(++%s));', 'mix ((u64)(%s--));', 'mix ((u64)(--%s));'])
             if t == 'bool' or (w and w < 2):
-                form = r.choice(['%s++;', '++%s;'])   # -- on _Bool is not accepted by gcc in C2x mode only; keep ++
+                form = r.choice(['%s++;', '++%s;', 'mix ((u64)(++%s));'])   # keep to ++ for _Bool
             return [form % lv]
         if not w and t in UNS3 + ['ushort', 'uchar']:
             self.features.add('compound')
